@@ -1695,7 +1695,7 @@ def scenarios_shapes(seed, n, op='render'):
     return out
 
 
-def scenarios_tuplelayout(seed, n, op='from_data'):
+def scenarios_tuplelayout(seed, n, op='from_data', out_tuple=0.3):
     """dataclasses with the positional layout enabled: init=False / keyword-only / excluded fields interleaved with
     positional ones; sequence data of every admissible length, one element possibly of the wrong kind"""
     g = random.Random(seed)
@@ -1728,7 +1728,7 @@ def scenarios_tuplelayout(seed, n, op='from_data'):
                 seen_default = True
             fields.append(f)
         d = {'name': name, 'fields': fields, 'opts': {'in_format': r.choice([['tuple', 'struct'], ['tuple']])}, 'hook': None}
-        if r.random() < 0.3:
+        if r.random() < out_tuple:
             d['opts']['out_format'] = 'tuple'
         ge.decl['classes'].append(d)
         ge.class_info[name] = d
